@@ -9,6 +9,7 @@ R16c  spanning_forest returns the constant 0 early only for a graph without vert
       incremented exactly once per outer (component) iteration
 R16d  the hand-written copy constructor and assignment copy every data member
 R16e  indices are not assigned in an order derived from addresses
+R16f  spanning_forest emits an edge only towards a still-unreached vertex and marks/queues it on the same path
 """
 import itertools
 import os
@@ -63,6 +64,45 @@ def check_create_index(rep, prog, fn):
                       key='R16a|%s|loops' % fn.g)
         return
     loop = edge_loops[0]
+    # the single pass must be reached whenever the graph has an edge: an early return in front of it may only fire for m == 0
+    for r in ex.returns_of(fn):
+        if loop.is_ancestor_of(r) or cfg.reaches(loop.cond if loop.cond is not None else loop.body, r):
+            continue
+        fdx = class_field_defs(prog, fn.j.get('rec_id'))
+        defs = {}
+        for d in fn.walk():
+            if d.k == 'VarDecl' and d.c and len(ex.assignments_to(fn, d.decl_id)) == 1:
+                defs[d.decl_id] = d.c[0]
+        for fid, lst in fdx.items():
+            if len(lst) == 1:
+                defs[fid] = lst[0][1]
+        bad = None
+        unknown = None
+        import itertools as _it
+        for m_, n_, k_ in _it.product(range(0, 5), range(0, 6), range(0, 4)):
+            if k_ > n_ or (n_ > 0 and k_ == 0) or m_ - n_ + k_ < 0 or m_ > n_ * (n_ - 1) // 2:
+                continue
+
+            def bind(s_, m_=m_, n_=n_, k_=k_):
+                if s_.k == 'CallExpr' and s_.callee:
+                    return {'boost::num_edges': m_, 'boost::num_vertices': n_, 'parmcb::detail::spanning_forest': k_}.get(s_.callee['g'])
+                return None
+            try:
+                holds = all(bool(ex.ceval(c, bind, defs)) == pol for (c, pol) in ex.ast_conditions(r))
+            except ex.Unknown as e:
+                unknown = str(e)
+                break
+            if holds and m_ > 0:
+                bad = (m_, n_, k_)
+                break
+        whatr = 'the numbering pass is skipped only for a graph without edges'
+        if unknown:
+            rep.undecided('R16a', r, fn, whatr, 'early return under a condition that could not be evaluated: ' + unknown)
+        elif bad:
+            rep.violation('R16a', r, fn, whatr, 'create_index returns before numbering for a graph with m=%d, n=%d, %d component(s): its edges get no '
+                          'index (index.at(e) throws, reverse_index holds null descriptors)' % bad, key='R16a|%s|early-return' % fn.g)
+        else:
+            rep.ok('R16a', r, fn, whatr)
     outside = [d for lst in stores.values() for (d, _k, _v) in lst if not loop.is_ancestor_of(d)]
     if outside:
         rep.violation('R16a', outside[0], fn, what, 'index tables are also written outside the single pass over edges(g) (line %d)' % outside[0].line,
@@ -153,9 +193,14 @@ def check_create_index(rep, prog, fn):
             problems.append('the arm is not chosen by membership of the edge in the spanning forest')
         else:
             others = [a for a in atoms if a != 'in_forest']
-            e_in = dict({a: True for a in others}, in_forest=True)
-            e_out = dict({a: True for a in others}, in_forest=False)
-            if ex.f_eval(pc, e_in) or not ex.f_eval(pc, e_out):
+            reach_in = reach_out = False
+            for vals in itertools.product((False, True), repeat=len(others)):
+                e = dict(zip(others, vals))
+                if ex.f_eval(pc, dict(e, in_forest=True)):
+                    reach_in = True
+                if ex.f_eval(pc, dict(e, in_forest=False)):
+                    reach_out = True
+            if reach_in or not reach_out:
                 problems.append('forest edges are numbered from 0 and off-forest edges from the dimension (arms swapped)')
     if problems:
         rep.violation('R16a', loop, fn, what, '; '.join(sorted(set(problems))), key='R16a|%s|numbering' % fn.g)
@@ -368,6 +413,90 @@ def check_spanning_forest(rep, prog):
     return n
 
 
+def check_forest_emission(rep, prog):
+    """R16f: spanning_forest emits an edge only when its far endpoint is still unreached, and on that path removes the endpoint from
+    the unreached set and queues it (so that every vertex is attached once: acyclic, and every reached vertex is explored)"""
+    n = 0
+    for fn in prog.fns('parmcb::detail::spanning_forest'):
+        cfg = fn.cfg
+        out = fn.param_ids[1] if len(fn.param_ids) > 1 else None
+        g = fn.param_ids[0]
+        emits = []
+        for d in fn.walk():
+            if d.k in ('CXXOperatorCallExpr', 'BinaryOperator') and d.op == '=':
+                ops = d.c[1:] if d.k == 'CXXOperatorCallExpr' else d.c
+                l = ops[0].strip_all()
+                if l.k in ('CXXOperatorCallExpr', 'UnaryOperator') and l.op == '*':
+                    inner = (l.c[1] if l.k == 'CXXOperatorCallExpr' else l.c[0]).strip_all()
+                    while inner.k in ('CXXOperatorCallExpr', 'UnaryOperator') and inner.op in ('++', '--'):
+                        inner = (inner.c[1] if inner.k == 'CXXOperatorCallExpr' else inner.c[0]).strip_all()
+                    if ex.var_of(inner) == out:
+                        emits.append((d, ops[1]))
+        what = 'a forest edge is emitted only towards a still-unreached vertex, which is then marked reached and queued'
+        for (d, val) in emits:
+            n += 1
+            evar = ex.var_of(val)
+            sets = {}
+
+            def atomize(leaf):
+                m = ex.membership(leaf)
+                if m is not None:
+                    sv = ex.var_of(m[0])
+                    if sv is not None and (prog.base_type(prog.vars[sv]['ty']) or {}).get('rec') in ('std::set', 'std::unordered_set'):
+                        sets[sv] = m[1]
+                        f = ex.f_atom('unreached')
+                        return f if m[2] else ex.f_not(f)
+                # iterator form: wit = unreached.find(w); wit == unreached.end()
+                s_ = leaf.strip_all()
+                if s_.k == 'CXXOperatorCallExpr' and s_.op in ('==', '!=') and len(s_.c) == 3:
+                    for x, y in ((s_.c[1], s_.c[2]), (s_.c[2], s_.c[1])):
+                        xv = ex.var_of(x)
+                        yy = y.strip_all()
+                        if xv is not None and yy.k == 'CXXMemberCallExpr' and yy.callee and yy.callee['name'] in ('end', 'cend'):
+                            dd = ex.unique_def(fn, xv)
+                            if dd is not None:
+                                q = dd.strip_all()
+                                if q.k == 'CXXMemberCallExpr' and q.callee and q.callee['name'] == 'find' and ex.key(q.object_arg()) == ex.key(yy.object_arg()):
+                                    sets[ex.var_of(q.object_arg())] = q.args()[0]
+                                    f = ex.f_atom('unreached')
+                                    return ex.f_not(f) if s_.op == '==' else f
+                return None
+            pc = guards_formula(cfg, d, atomize)
+            atoms = ex.f_atoms(pc)
+            if 'unreached' not in atoms:
+                if ex.opaque_nodes(fn, pc) and any(o.enclosing('ForStmt', 'WhileStmt') is not None and any(
+                        x.k == 'CXXMemberCallExpr' and x.callee and x.callee['name'] in ('find', 'count') for x in o.walk()) for o in ex.opaque_nodes(fn, pc)):
+                    rep.undecided('R16f', d, fn, what, 'membership guard outside the idiom table')
+                else:
+                    rep.violation('R16f', d, fn, what,
+                                  '`%s` is not conditioned on the far endpoint being unreached: the edge may close a cycle or be emitted twice, '
+                                  'and the component count no longer matches the emitted forest' % d.text(50), key='R16f|%s|unguarded-emission' % fn.g)
+                continue
+            rest = [a for a in atoms if a != 'unreached']
+            import itertools as _it
+            reach_without = any(ex.f_eval(pc, dict(dict(zip(rest, vals)), unreached=False)) for vals in _it.product((False, True), repeat=len(rest)))
+            if reach_without:
+                rep.violation('R16f', d, fn, what, 'the emission is also reached when the endpoint was already reached', key='R16f|%s|guard-polarity' % fn.g)
+                continue
+            # erase + push on the same path
+            pd = cfg.pos_of(d)
+            erased = pushed = False
+            for x in fn.walk():
+                px = cfg.pos_of(x)
+                if px is None or pd is None or px[0] != pd[0]:
+                    continue
+                if x.k == 'CXXMemberCallExpr' and x.callee and x.callee['name'] == 'erase' and ex.var_of(x.object_arg()) in sets:
+                    erased = True
+                if x.k == 'CXXMemberCallExpr' and x.callee and x.callee['name'] == 'push':
+                    pushed = True
+            if erased and pushed:
+                rep.ok('R16f', d, fn, what, 'guarded by membership in the unreached set; erase + push in the same block')
+            else:
+                rep.violation('R16f', d, fn, what, 'on the emitting path the endpoint is %s' % ('not removed from the unreached set' if not erased else 'not queued for exploration'),
+                              key='R16f|%s|bookkeeping' % fn.g)
+    return n
+
+
 def run_on(rep, prog):
     n = 0
     for fn in prog.fns(CLS + '::create_index'):
@@ -375,6 +504,7 @@ def run_on(rep, prog):
         n += 1
     check_accessors(rep, prog)
     check_spanning_forest(rep, prog)
+    check_forest_emission(rep, prog)
     c17.check_copy_ops(rep, prog, CLS, 'R16d')
     c04.check_forest_order(rep, prog)
     return n
@@ -385,6 +515,7 @@ def run(rep, tier):
     rep.rule('R16b', 'dimension formula and accessors', floor=5)
     rep.rule('R16c', 'spanning_forest component counter', floor=2)
     rep.rule('R16d', 'copy operations copy every member', floor=2)
+    rep.rule('R16f', 'spanning_forest emission sites are guarded and paired with the unreached/queue bookkeeping', floor=1)
     rep.rule('R16e', 'index order is address-free', floor=1)
     tus = [env.witness_tu()]
     if tier == 'thorough':
@@ -401,7 +532,7 @@ def run(rep, tier):
         pp = env.extract([pos], 'full', ('first:-I' + os.path.join(env.WITNESS, 'positive', 'broken_include2'),))[pos]
         prep = type(rep)(rep.prop, rep.tier)
         run_on(prep, pp)
-        for r in ('R16a', 'R16b', 'R16c', 'R16d', 'R16e'):
+        for r in ('R16a', 'R16b', 'R16c', 'R16d', 'R16e', 'R16f'):
             rep.positive(r, 'witness/positive/c16_forest.cc', any(i.status == 'violation' and i.rule == r for i in prep.instances.values()))
     except env.AnalysisBroken as e:
         rep.analysis_broken('positive example c16_forest.cc does not parse: ' + str(e)[:300])
